@@ -62,8 +62,13 @@ func CropFloat3Attribute(m modeling.Mesh, attr string, boundingBox geometry.AABB
 		v1[attr] = make([]float64, 0)
 	}
 
+	// walk the points of the mesh (its indices), not the raw vertex arrays:
+	// a vertex no point refers to is not part of the cloud, a vertex referred
+	// to twice is two points
 	decidingAttribute := m.Float3Attribute(attr)
-	for i := 0; i < decidingAttribute.Len(); i++ {
+	indices := m.Indices()
+	for p := 0; p < indices.Len(); p++ {
+		i := indices.At(p)
 		if !boundingBox.Contains(decidingAttribute.At(i)) {
 			continue
 		}
